@@ -9,6 +9,17 @@ from ..ir import Program, callee_name, AnchorError, op_local
 FP = "winter_fri::prover::FriProver"
 
 
+def _state_fields(prog):
+    """(layers field, remainder field) of FriProver, found by their TYPES (private fields may be renamed): the vector of committed layers
+    and the stored remainder"""
+    flds = prog.adt(FP)["variants"][0]["fields"]
+    lay = [f["name"] for f in flds if f["ty"].replace(" ", "").startswith("alloc::vec::Vec<") and "Layer" in f["ty"]]
+    rem = [f["name"] for f in flds if "Remainder" in f["ty"] or (f["ty"].replace(" ", "").startswith("alloc::vec::Vec<E") and "Layer" not in f["ty"])]
+    if len(lay) != 1 or len(rem) != 1:
+        raise AnchorError(f"FriProver: cannot tell the layers field and the remainder field apart by type ({lay}, {rem})")
+    return lay[0], rem[0]
+
+
 def returns(fn):
     return [(b, T) for b, blk in enumerate(fn.blocks) if blk["t"]["k"] == "return"]
 
@@ -29,7 +40,7 @@ def field_arg_calls(fn, suffixes, field):
 def clears(prog, fn, depth=0):
     """fields of FriProver that are emptied on every path of fn (directly or via FriProver methods)"""
     out = set()
-    for field in ("layers", "remainder_poly"):
+    for field in _state_fields(prog):
         sites = [(b, T) for b, t in field_arg_calls(fn, ("Vec::clear", "Vec::truncate", "mem::take", "mem::replace", "Vec::drain"), field)]
         if depth < 3:
             for b, t in fn.calls():
@@ -96,18 +107,19 @@ def run(ck):
     bli = prog.inl(bl)
     for n in getattr(bli, "inlined", ()) or ():
         ck.analysed["functions"].add(n)
+    LAY, REM = _state_fields(prog)
     # T1: build_proof leaves the prover clean
     cl = clears(prog, bp)
-    ck.ob("T", "build_proof:clears-layers", "layers" in cl,
+    ck.ob("T", "build_proof:clears-layers", LAY in cl,
           "FriProver::build_proof empties `layers` on every return path (otherwise the next build_layers panics)", loc=bp.loc())
-    ck.ob("T", "build_proof:clears-remainder", "remainder_poly" in cl,
+    ck.ob("T", "build_proof:clears-remainder", REM in cl,
           "FriProver::build_proof empties the remainder on every return path", loc=bp.loc())
-    ck.ob("T", "reset:clears-both", clears(prog, rs) == {"layers", "remainder_poly"},
+    ck.ob("T", "reset:clears-both", clears(prog, rs) == {LAY, REM},
           "FriProver::reset empties both the layers and the remainder", loc=rs.loc())
     # T2: build_layers requires clean: the refusal precedes every commitment sent and every store of the remainder
     stores = [(b, S) for b, i, s in bli.assigns()
-              if any(isinstance(e, dict) and e.get("n") == "remainder_poly" for e in s["lhs"].get("p", []))]
-    pg = panic_guard(bli, "layers", want_empty=True)
+              if any(isinstance(e, dict) and e.get("n") == REM for e in s["lhs"].get("p", []))]
+    pg = panic_guard(bli, LAY, want_empty=True)
     work = [(b, T) for b, t in bli.calls() if (callee_name(t) or "").endswith("commit_fri_layer")] + stores
     ok = bool(pg) and bool(work) and must_between(bli, None, pg, work)[0]
     ck.ob("T", "build_layers:requires-clean", ok, "FriProver::build_layers refuses to start unless no layers are stored", loc=bl.loc())
@@ -116,7 +128,7 @@ def run(ck):
     ck.ob("T", "build_layers:stores-remainder", ok,
           "every path of build_layers (private helpers read in place) assigns remainder_poly before it returns", loc=bl.loc())
     # T4: build_proof requires dirty
-    pg = panic_guard(bp, "remainder_poly", want_empty=False)
+    pg = panic_guard(bp, REM, want_empty=False)
     ck.ob("T", "build_proof:requires-dirty", bool(pg) and must_between(bp, None, pg, returns(bp))[0],
           "FriProver::build_proof refuses to run before layers were built", loc=bp.loc())
     carried_state(ck, prog, bli, rs)
@@ -127,7 +139,7 @@ def run(ck):
     foldable_rule(ck, prog)
     from . import width
     width.run(ck, prog, only=("FriProof", "FriProofLayer"), floor=3)   # the FRI proof of a legal schedule survives serialization
-    ck.control("FriProver::build_layers does not clear the layers", "layers" not in clears(prog, bl))
+    ck.control("FriProver::build_layers does not clear the layers", LAY not in clears(prog, bl))
 
 
 def remainder_exemption(ck, prog):
@@ -154,7 +166,9 @@ def remainder_exemption(ck, prog):
             wr = g.walk(ops=[c.rhs], at=c.node)
             for a, bb in ((wl, wr), (wr, wl)):
                 if any(n.endswith("Iterator::enumerate") for n in g.callee_names_in(a)) and \
-                        any(n.endswith("Vec::len") for n in g.callee_names_in(bb)) and any(k.startswith("lit:1:") for k in g.consts_in(bb)):
+                        any(n.endswith("Vec::len") for n in g.callee_names_in(bb)) and \
+                        (any(k.startswith("lit:1:") for k in g.consts_in(bb)) != any(k.startswith("lit:1:") for k in g.consts_in(a))):
+                    # `depth == len - 1` and `depth + 1 == len` are the same decision (the literal on exactly one side)
                     # edges on which depth == last are the ones that must not lead to the decision
                     listed = [v for v, _ in t["targets"]]
                     for v, tb in [(v, tb) for v, tb in t["targets"]] + ([("1", t["otherwise"])] if listed == ["0"] else []):
@@ -240,6 +254,21 @@ def agreement(ck, prog):
         g = flow(f)
         fps = [(b, T) for b, t in f.calls() if (callee_name(t) or "").endswith("folding::fold_positions")]
         ok = bool(fps)
+        if not ok:
+            # the per-layer loop written with iterator adaptors: the folding happens in the closure applied to every layer
+            clos = [prog.fns[cid] for b, t in f.calls() for cid in f.closure_args(t) if cid in prog.fns]
+            inner = [c for c in clos if any((callee_name(t) or "").endswith("folding::fold_positions") for _, t in c.calls())]
+            if inner:
+                ok = True
+                c = inner[0]
+                shrinks = any(st["rv"]["k"] == "bin" and st["rv"]["op"] == "Div" for _, _, st in c.assigns())
+                if shrinks:
+                    ck.ob("A", f"domain-shrinks-per-layer:{label}", True,
+                          f"{label}: the closure applied to every layer folds the positions and divides the domain size by the folding factor", loc=c.loc())
+                else:
+                    ck.note(f"A: {label}: the per-layer closure folds the positions; where the domain size shrinks was not recognised; not decided")
+                ck.ob("A", f"fold_positions:{label}", True, f"{label} folds the query positions with folding::fold_positions", loc=f.loc())
+                continue
         if ok:
             # per iteration: between two fold_positions calls the domain size is divided
             divs = []
@@ -332,6 +361,7 @@ def remainder_sent(ck, prog, rule="SENT"):
     is stored, the value hashed for the commitment and the value stored are the same vector."""
     ck.rule(rule, "the remainder placed in the FRI proof is the committed remainder polynomial itself: copied from the prover's state without "
                   "modification, and the state holds the very vector whose hash was committed")
+    LAY, REM = _state_fields(prog)
     bp = prog.inl(prog.fn(FP + "::build_proof"), keep=tuple(f.id for f in prog.fns.values() if f.nname.endswith("proof::FriProof::new")))
     ck.saw(bp)
     g = flow(bp)
@@ -342,20 +372,34 @@ def remainder_sent(ck, prog, rule="SENT"):
         w = g.walk(ops=[t["args"][1]], at=(b, T), through=lambda tt: (callee_name(tt) or "").endswith(COPY_ONLY))
         flds = {fl for a, fl in g.fields_in(w)}
         calls = sorted({(callee_name(bp.term(n[1])) or "?") for n in w if n[0] == "c"})
-        foreign = [c for c in calls if not c.endswith(COPY_ONLY)]
-        ok = "remainder_poly" in flds and not foreign
+        # a call counts only if it can change or produce the vector: it returns a vector of the remainder's type, or takes `&mut` to one
+        vty = bp.local_ty(op_local(t["args"][1])).replace(" ", "") if op_local(t["args"][1]) is not None else ""
+        elem = vty.split("Vec<", 1)[-1].split(",")[0].rstrip(">") if "Vec<" in vty else "E"
+
+        def touches(tt):
+            if (tt.get("dest_ty") or "").replace(" ", "") == vty:
+                return True
+            for a in tt["args"]:
+                al = op_local(a)
+                aty = bp.local_ty(al).replace(" ", "") if al is not None else ""
+                if aty.startswith("&mut") and (vty in aty or f"[{elem}]" in aty):
+                    return True
+            return False
+        foreign = sorted({(callee_name(bp.term(n[1])) or "?") for n in w if n[0] == "c" and not (callee_name(bp.term(n[1])) or "?").endswith(COPY_ONLY)
+                          and touches(bp.term(n[1]))})
+        ok = REM in flds and not foreign
         ck.ob(rule, "build_proof:remainder-is-the-stored-one", ok,
               "FriProver::build_proof hands FriProof::new the stored remainder polynomial, reached through copies only", loc=bp.loc(b, T),
               detail=None if ok else (f"the vector is modified or produced by {[c.split('::')[-1] for c in foreign]} between the prover's state and the proof: "
                                       "its hash no longer equals the commitment absorbed in the commit phase" if foreign else
-                                      "the vector does not originate in the field `remainder_poly`"))
+                                      f"the vector does not originate in the field `{REM}`"))
     # (b) the store site
     bl = prog.inl(prog.fn(FP + "::build_layers"))
     gl = flow(bl)
     stores = []
     for b, i, st in bl.assigns():
         lhs = st.get("lhs") or {}
-        if any(isinstance(e, dict) and e.get("n") == "remainder_poly" for e in lhs.get("p", [])):
+        if any(isinstance(e, dict) and e.get("n") == REM for e in lhs.get("p", [])):
             stores.append((b, i, st))
     hashes = [(b, t) for b, t in bl.calls() if (callee_name(t) or "").endswith("ElementHasher::hash_elements")]
     commits = [(b, t) for b, t in bl.calls() if (callee_name(t) or "").endswith("ProverChannel::commit_fri_layer")]
